@@ -166,7 +166,9 @@ def _forward(ctx):
                                         '2001:db8::/129', '',
                                         '2001:db8::/ 64', '2001:db8::/64\n',
                                         '2001:db8::/+64', '2001:db8::/'),
-                    mac: MACS + ('garbage', '00:16:3e:33:44')}
+                    mac: MACS + ('garbage', '00:16:3e:33:44',
+                                 '00-16-3E-33-44-55', '0016.3e33.4455',
+                                 '00163e334455', 'FA:16:3E:33:44:55')}
             if ctx.thorough:
                 grid[prefix] += (
                     '::/0', '::/128', '2001:db8::ffff/127', 'ff00::/8',
@@ -347,7 +349,8 @@ def _params(ctx):
     cls = world.cls(MOD, '_ModifiedSplitResult')
     rep.analysed('netutils._ModifiedSplitResult.params')
     queries = ('', 'a=1', 'a=1&b=2', 'a=1&b=2&a=3', 'a=1&a=2&a=3', 'a=&b',
-               'x=1&y=2&x=3&y=4&x=5', 'a=1&a=2&b=3&a=4')
+               'x=1&y=2&x=3&y=4&x=5', 'a=1&a=2&b=3&a=4', 'a=2&a=1',
+               'b=9&a=3&b=1&a=2', 'z=1&a=2', 'a=b&a=B&a=a', 'k=&k=v&k=')
     for q in queries:
         for collapse in (True, False):
             def thunk(interp):
